@@ -149,4 +149,12 @@ CHECKS['C17'] = dict(
          '(with a decoy exactly.suite under --suite): marker order suite-then-case (cleanup: case-then-suite), concatenated act source, sub-suite isolation. C: suite-supplied contents referencing '
          'per-case symbols / sandbox builtins through 15 instruction kinds over all orderings of 2-3 cases.',
     note='Virtual children as probes; Y=y0 in the caller environment; chunk-prefix replay makes cross-case leaks through module state reproducible.')
+CHECKS['C07'] = dict(
+    level='exploration',
+    technique='bounded-exhaustive enumeration of documents over a line-kind alphabet, of order-preserving phase-block permutations and of inclusion graphs, parsed by the real test-case parser and compared with an independent reader of the documented file syntax',
+    text='All 88 741 documents of <=4 items (thorough <=5) over 17 line kinds x {final newline, none}: per-phase elements, first line numbers and source lines (or the line of the single error) '
+         'must equal the independent reader; every order-preserving permutation of the phase blocks of the valid 4-item documents gives the same per-phase contents; 155 main files x 9 x 5 '
+         'variants of included files (diamonds, same file twice, self/a<->b/back-to-main cycles, missing file, sub-directory relative paths, phase changes inside included files): spliced '
+         'sequences, line numbers and inclusion chains; 8 CLI error reports must name file, line, text and the including chain in order.',
+    note='Instruction identity = the symbol a `def string` defines; the same-line description case accepts either reading of the element source.')
 NOT_APPLICABLE = {}
